@@ -298,8 +298,18 @@ async fn fidelity(srv: &Server, rng: &mut Rng, cases: u64, tag: &str) {
     }
     for c in 0..cases {
         let large = rng.chance(1, 6);
-        let nkeys = rng.range(1, 2) as usize;
+        // twin sessions: three keys that agree on their first 256 bytes (the key-length limit of the denied-key metrics):
+        // exactly 256 bytes, and two 257-byte keys differing in the last byte - each must have its own bucket on every protocol
+        let twin = !large && rng.chance(1, 4);
+        let nkeys = if twin { 3 } else { rng.range(1, 2) as usize };
+        let twin_limits = (rng.range(1, 3), *rng.pick(RATES));
         let keys: Vec<(String, i64, i64, i64, i64)> = (0..nkeys).map(|n| {
+            if twin {
+                let mut base = format!("{tag}{c}_");
+                while base.len() < 256 { base.push('w'); }
+                let key = match n { 0 => base.clone(), 1 => format!("{base}a"), _ => format!("{base}b") };
+                return (key, twin_limits.0, (twin_limits.1).0, (twin_limits.1).1, 1);
+            }
             // large: durations beyond int32 seconds, but now + 2*B*E well inside i64 nanoseconds (no saturating arithmetic,
             // whose results depend on the wall clock to the nanosecond; that regime is C08's, with explicit timestamps)
             let (count, period, lb, qbig) = *rng.pick(&[(1i64, 1000000000i64, 3i64, 3i64), (1, 30000, 100000, 80000), (2147483647, 2147483647, 2147483647, 2000000000)]);
